@@ -70,6 +70,12 @@ func driveWaiters(t *testing.T, prop string, vias []string, nCases, steps int, o
 				map[string]interface{}{"component": "blocking-wrapper", "cfg": cfg, "ops": hist})
 		}
 		gen := func(w *WSUT, step int) *wOp {
+			if cfg.Kind == 2 && len(w.Callers) < 14 {
+				// the deadline limiter in its last millisecond: a caller arriving then still waits for the deadline (and takes a token released before it)
+				if left := w.Absdl - nowNs(); left > 0 && left < 1_000_000 && r.Bool(60) {
+					return &wOp{1, []int64{0}}
+				}
+			}
 			for try := 0; try < 20; try++ {
 				k := r.Intn(weights[0] + weights[1] + weights[2] + weights[3] + weights[4])
 				switch {
@@ -107,7 +113,7 @@ func driveWaiters(t *testing.T, prop string, vias []string, nCases, steps int, o
 						}
 						if cfg.Kind == 2 {
 							if x := w.Absdl - nowNs(); x > -2 {
-								d = x + r.Pick(-1, 0, 1)
+								d = x + r.Pick(-1, 0, 1, -400_000, -900_000)
 							}
 						}
 					}
@@ -285,6 +291,12 @@ func TestC12(t *testing.T) {
 				}
 			}
 		}
+		// the bound in force is the configured one (the default 100 for a non-positive size)
+		if w.Queue != nil {
+			if mb, _ := w.Queue.VerifBacklogConfig(); int64(mb) != w.Cfg.MaxB {
+				fail("constructor-bound", fmt.Sprintf("constructor %s (backlog size argument %d) installs the bound %d, expected %d", w.Cfg.Via, w.Cfg.RawB, mb, w.Cfg.MaxB))
+			}
+		}
 		// the reported queue size equals the number of blocked callers
 		if sup, ok := w.Reg.Gauges["queue_size"]; ok {
 			v, _ := sup()
@@ -333,6 +345,16 @@ func TestC13(t *testing.T) {
 			c := w.Callers[op.Args[0]]
 			if _, ok := cancelledAt[c]; !ok {
 				cancelledAt[c] = now
+			}
+		}
+		if op.Op == 1 && op.Args[0] == 0 && w.Cfg.Kind == 2 {
+			// a live caller arriving strictly before the deadline is never refused on the spot: it waits (or is served)
+			c := w.Callers[len(w.Callers)-1]
+			if c.arrival < w.Absdl {
+				rep.Distinct("arrival-before-deadline", fmt.Sprint(w.Absdl-c.arrival < 1_000_000, before[0]))
+				if c.status == 2 && c.t < w.Absdl {
+					fail("refused-early", fmt.Sprintf("caller arriving %d ns before the deadline was refused at once (busy %d)", w.Absdl-c.arrival, before[0]))
+				}
 			}
 		}
 		if op.Op == 1 && op.Args[0] != 0 {
@@ -435,12 +457,30 @@ func TestC19(t *testing.T) {
 		}
 		phase := 0
 		cancelledOne, cancelledIdx := false, -1
+		wave, waveLeft := 0, int(extra)
+		if r.Bool(30) {
+			wave = 1
+		}
 		gen := func(w *WSUT, step int) *wOp {
 			if len(w.Callers) < total {
 				if r.Bool(30) {
 					return &wOp{4, []int64{r.Pick(1, 1000, 100_000)}} // callers arrive at different instants
 				}
 				return &wOp{1, []int64{0}}
+			}
+			// in some scenarios the queued callers time out (the holders are slow), and a second wave arrives afterwards: the callers of the
+			// second wave must not find the places of the first one still taken
+			if wave == 1 && cfg.Kind == 3 {
+				wave = 2
+				return &wOp{4, []int64{cfg.Timeout + r.Pick(1, 1000, 50_000_000)}}
+			}
+			if wave == 2 {
+				if waveLeft > 0 {
+					waveLeft--
+					total++
+					return &wOp{1, []int64{0}}
+				}
+				wave = 3
 			}
 			// now and then a queued caller's context is cancelled while it waits (pools do not evict on cancellation: it keeps its place
 			// and must not get in the way of the callers behind it)
@@ -487,6 +527,9 @@ func TestC19(t *testing.T) {
 			if holders > cfg.Limit {
 				fail("over-limit", fmt.Sprintf("%d tokens held at once, pool limit %d", holders, cfg.Limit))
 			}
+			if w.Strat != nil && int64(w.busy()) != holders {
+				fail("busy-not-holders", fmt.Sprintf("the pool's limiter counts %d tokens out, %d callers hold one", w.busy(), holders))
+			}
 		}
 		if _, err := RunScenario(t, cfg, tr, gen, after, 200); err != nil {
 			rep.Count("constructor-error")
@@ -496,7 +539,8 @@ func TestC19(t *testing.T) {
 			served := 0
 			for i, c := range final.Callers {
 				// (a caller of the random-order pool whose context was cancelled while it waited is refused at that moment: it left by its own doing)
-				if c.status == 3 || (c.status == 2 && cfg.Kind == 1 && i == cancelledIdx) {
+				timedOut := c.status == 2 && cfg.Kind == 3 && cfg.Timeout > 0 && c.t == c.arrival+cfg.Timeout // waited its full backlog timeout
+				if c.status == 3 || (c.status == 2 && cfg.Kind == 1 && i == cancelledIdx) || timedOut {
 					served++
 				}
 			}
